@@ -95,7 +95,8 @@ Eq(t, x, y) ==
     [] t.n = "struct" -> \A i \in FieldIdx(t.s) :
                             Eq(Fields(t.s)[i].type, x.s[Fields(t.s)[i].name], y.s[Fields(t.s)[i].name])
 
-SetMembers(s, v) == {i \in FieldIdx(s) : ~IsNil(v.s[Fields(s)[i].name])}
+\* a union member is set iff the presence rule says so (non-nil; for a member with a declared default: differs from it)
+SetMembers(s, v) == {i \in FieldIdx(s) : Present(Fields(s)[i], v.s[Fields(s)[i].name])}
 
 (* A value is writable iff every union in it has exactly one member set and no set in it *)
 (* holds two equal elements.                                                              *)
